@@ -169,6 +169,11 @@ func extractC04(repo string) (string, error) {
 		}
 		fmt.Fprintf(&b, "  if %s then %s else\n", c, leanStr(results[c04Text(ret.Results[0])]))
 	}
+	gs, err := c04Guards(f)
+	if err != nil {
+		return "", err
+	}
+	b.WriteString(gs)
 	b.WriteString("end WK.Gen.C04\n")
 	return b.String(), nil
 }
